@@ -655,6 +655,9 @@ class Report:
         self.failures.append(f)
 
     def finish(self):
+        # the fixed corpus of programs once reported to violate this property (mc/reported.py)
+        from . import reported
+        reported.run_reported(self)
         findings = load_findings()
         by_sig = {}
         for f in self.failures:
